@@ -33,7 +33,7 @@ def obj_replay(c, rt, jsonl, nslots, parts, label):
             # did not reach the method on the instance (C01), inside a cast operation that the cast misbehaved (C08)
             ops = [l.split()[1] for l in pr.stderr.splitlines() if l.startswith("OP ")]
             last_op = ops[-1] if ops else ""
-            mine = (c.prop == "C06" or (c.prop == "C01" and last_op in ("Call", "CastBorrow", "KidBorrowed", "KidView"))
+            mine = (c.prop == "C06" or (c.prop == "C01" and last_op in ("Call", "Consume", "CastBorrow", "KidBorrowed", "KidView"))
                     or (c.prop == "C08" and last_op in ("CastBorrow", "CastMove", "Upcast")))
             if mine:
                 c.violation("the real code crashed the replay child (rc=%s) during %s %s on behaviour %s" % (rc, last_op or "?", label, json.dumps(beh)[:500]),
